@@ -176,7 +176,9 @@ def setup_case(draw, method):
     unc = method == "cov_mm" and draw(st.integers(0, 2)) == 0
     return {"sys": s, "refs": None if allref else refs, "br": br, "brmin": brmin, "N": N + (200 if unc else 0), "amps": amps, "method": method, "unc": unc,
             "layout": draw(st.sampled_from(["C", "C", "F", "colslice", "rowstep", "neg"])), "conj": draw(st.booleans()), "reuse": draw(st.integers(0, 3)) == 0,
-            "ordextra": draw(st.sampled_from([0, 0, 0, 1, 2, 4]))}  # the user asks for more orders than 2m
+            "ordextra": draw(st.sampled_from([0, 0, 0, 1, 2, 4])),  # the user asks for more orders than 2m
+            "mpe_rtol": draw(st.sampled_from([1e-3, 1e-3, 0.02, 0.12])), "mpe_off": draw(st.floats(-1, 1)),  # tolerance of the extraction and how far (in units of it) the requests are off
+            "decoy": draw(st.booleans())}  # another algorithm with much stricter criteria is created (never added) after the judged one
 
 
 def _kappa_data(Y, refs, br, m):
@@ -250,6 +252,9 @@ def judge_setup(case):
         if raised(sut(other.add_algorithms, alg)) or raised(sut(other.run_by_name, "alg")):
             j.skip("first-use-of-reused-object-raised")
             return j
+    if case.get("decoy"):
+        sut(lambda: cls(**dict(kw, name="decoy", hc=dict(conj=True, xi_max=1e-6, mpc_lim=0.999, mpd_lim=1e-6, cov_max=1e-12), sc=dict(err_fn=1e-9, err_xi=1e-9, err_phi=1e-9))))
+        j.tag("decoy-algorithm")
     r = sut(ss.add_algorithms, alg)
     r2 = sut(ss.run_by_name, "alg")
     if unc and raised(r2) and r2.type == "LinAlgError":
@@ -269,8 +274,13 @@ def judge_setup(case):
     _judge_column(j, S, Fn[:, n2], Xi[:, n2], Phi[:, n2, :], Lam[:, n2], tol, "table")
     j.check(np.array_equal(Y, Y0), "data-mutated", "setup data modified by the run")
     # extraction at order 2m
-    rtol = 1e-3
-    r3 = sut(ss.mpe, "alg", sel_freq=[float(f) for f in S.fn], order=n2, rtol=rtol)
+    rtol = float(case.get("mpe_rtol", 1e-3))
+    # requests off by up to 60 % of the tolerance, but never nearer to a neighbouring mode than to their own
+    fs_sorted = np.sort(S.fn)
+    gap = np.array([min([abs(f - g) / f for g in fs_sorted if g != f] or [1.0]) for f in S.fn])
+    off = float(case.get("mpe_off", 0.0)) * np.minimum(0.6 * rtol, 0.3 * gap)
+    j.tag(f"mpe-rtol={rtol:g}")
+    r3 = sut(ss.mpe, "alg", sel_freq=[float(f * (1 + o)) for f, o in zip(S.fn, off)], order=n2, rtol=rtol)
     if j.check(not raised(r3), "mpe-raises", lambda: f"{r3!r}"):
         fn, xi, phi = np.asarray(res.Fn), np.asarray(res.Xi), np.asarray(res.Phi)
         if j.check(fn.shape == (m,) and xi.shape == (m,) and phi.shape == (l, m), "mpe-shape", lambda: f"Fn{fn.shape} Xi{xi.shape} Phi{phi.shape} for m={m}, l={l}"):
